@@ -81,6 +81,7 @@ class Ctx:
         self.sqrt_terms = {}
         self.sum_tags = {}
         self.stub_mode = 0
+        self.inf_used = False
         self.crossexec = False  # proxy-vs-native cross execution: concrete arguments are computed numerically
         self.lemma_obligations = {}
         self.ghost = {}
@@ -527,6 +528,18 @@ def _frac(x):
     raise TypeError(x)
 
 
+_POS_INF = z3.Real("INF!pos")
+
+
+def _mentions_inf(t):
+    try:
+        from z3.z3util import get_vars
+
+        return any(v.eq(_POS_INF) for v in get_vars(t))
+    except Exception:
+        return False
+
+
 def is_sym(x):
     return isinstance(x, (SymNum, SymBool))
 
@@ -570,6 +583,14 @@ def to_z3(x, want=None):
         x = x.item()
     if isinstance(x, int):
         return z3.RealVal(x) if want == "real" else z3.IntVal(x)
+    if isinstance(x, float) and math.isinf(x):
+        # +-inf: a distinguished real that exceeds (in magnitude) every finite value it is COMPARED with (the fact is
+        # added at each comparison); arithmetic on it is not given float semantics (inf + 1 == inf is not modelled)
+        c = Ctx.current
+        if c is not None:
+            c.inf_used = True
+            c.used_axioms.add("float inf: a real constant greater than every finite value it is compared with")
+        return _POS_INF if x > 0 else -_POS_INF
     f = _frac(x)
     return z3.RealVal(str(f))
 
@@ -777,6 +798,13 @@ class SymNum:
             else:
                 return NotImplemented
         x, y, _ = _coerce2(self, o)
+        c = Ctx.current
+        if c is not None and getattr(c, "inf_used", False):
+            mx, my = _mentions_inf(x), _mentions_inf(y)
+            if mx != my:
+                fin = y if mx else x
+                fin = z3.ToReal(fin) if fin.sort() == z3.IntSort() else fin
+                c.assume(SymBool(z3.And(_POS_INF > fin, _POS_INF > -fin)))
         return SymBool(z3.simplify(op(x, y)))
 
     def __lt__(self, o):
